@@ -12,7 +12,9 @@ import (
 	"log"
 	"math/rand"
 	"os"
+	"runtime"
 	"sort"
+	"strconv"
 	"strings"
 	"time"
 )
@@ -59,10 +61,29 @@ func safeRun(p *Prop, c string) string {
 
 var caseTimeout = 10 * time.Second
 
+// memWatch ends the process when the code under test allocates without bound (4 GB of live heap, VERIF_MEMLIMIT_MB
+// overrides): the run is then localised to the case like any other crash, instead of taking the machine down.
+func memWatch() {
+	limit := uint64(4 << 30)
+	if v, err := strconv.Atoi(os.Getenv("VERIF_MEMLIMIT_MB")); err == nil && v > 0 {
+		limit = uint64(v) << 20
+	}
+	var ms runtime.MemStats
+	for {
+		time.Sleep(250 * time.Millisecond)
+		runtime.ReadMemStats(&ms)
+		if ms.HeapAlloc > limit {
+			fmt.Fprintf(os.Stderr, "memory limit exceeded: more than %d MB of live heap while running the case\n", limit>>20)
+			os.Exit(86)
+		}
+	}
+}
+
 func main() {
 	if os.Getenv("VERIF_LOG") == "" {
 		log.SetOutput(io.Discard) // the code under test logs freely
 	}
+	go memWatch()
 	if len(os.Args) < 3 {
 		fmt.Fprintln(os.Stderr, "usage: siot-diff gen|replay <prop> [-seed N] [-n K] [-tier quick|thorough]")
 		os.Exit(2)
@@ -110,6 +131,9 @@ func main() {
 		r := rand.New(rand.NewSource(*seed))
 		for _, c := range p.Gen(r, *n, *tier) {
 			fmt.Fprintf(w, "%s %s => %s\n", id, c, safeRun(p, c))
+			if flushEach {
+				w.Flush()
+			}
 		}
 	case "replay":
 		sc := bufio.NewScanner(os.Stdin)
